@@ -278,6 +278,12 @@ func (s *Sim) RandomMembershipOp(o MemOpts) *OpRec {
 		for i := 0; i < n; i++ {
 			ids = append(ids, cands[perm[i]])
 		}
+		if choose.Chance(s.Ch, "mem.leave.repeat", 12) {
+			// a client that names a leaver twice (double click, merged lists): the table accepts
+			// such a list; it must still remove exactly the players it names
+			ids = append(ids, ids[0])
+			s.Label("leave_list_names_a_player_twice")
+		}
 		if len(o.NoLeave) > 0 {
 			for _, id := range ids {
 				for i, p := range t.State.PlayerStates {
